@@ -32,6 +32,9 @@ type Scenario struct {
 	FixedIPv4 bool `json:"fixedIPv4,omitempty"`
 	// SlowAppMs[i]: the application of hub i needs this long for a pairing-detail notification
 	SlowAppMs []int `json:"slowAppMs,omitempty"`
+	// NoWait[i]: the application of hub i does not allow waiting for trust (no user interface open):
+	// pairing requests of SKIs that are not registered are denied at once
+	NoWait []bool `json:"noWait,omitempty"`
 	// SlowLog: log lines for which the application's logger is slow (see slowlog.go)
 	SlowLog []LogRule `json:"slowLog,omitempty"`
 }
@@ -122,6 +125,11 @@ func Execute(sc Scenario) *Run {
 		}
 		if i < len(sc.SlowAppMs) {
 			n.App.SlowPairing.Store(int64(sc.SlowAppMs[i]))
+		}
+		if i < len(sc.NoWait) && sc.NoWait[i] {
+			n.App.mu.Lock()
+			n.App.AllowWait = false
+			n.App.mu.Unlock()
 		}
 	}
 	stop := make(chan struct{})
